@@ -82,8 +82,18 @@ fn map_case(ctx: &mut Ctx, rng: &mut Rng) {
     q.truncate(k);
     // weights: all in [0,1]; non-query normalised; near-ties (differences of 2^-k) are common
     let mut w: Vec<(OReal, OReal)> = Vec::new();
+    // a quarter of the cases use very coarse weights (0, 1/2, 1): many exactly tied optima and
+    // exactly tied bounds of sibling branches, zero-weight branches
+    let coarse = rng.chance(1, 4);
     for v in 0..n {
-        if q.contains(&v) {
+        if coarse {
+            if q.contains(&v) {
+                w.push((OReal(Dy::new(rng.below(3) as i128, 1)), OReal(Dy::new(rng.below(3) as i128, 1))));
+            } else {
+                let h = rng.below(3) as i128;
+                w.push((OReal(Dy::new(2 - h, 1)), OReal(Dy::new(h, 1))));
+            }
+        } else if q.contains(&v) {
             let a = rng.below(17) as i128;
             let b = if rng.chance(1, 3) { (a + if rng.bool() { 1 } else { 0 }).min(16) } else { rng.below(17) as i128 };
             w.push((OReal(Dy::new(a, 4)), OReal(Dy::new(b, 4))));
@@ -105,6 +115,9 @@ fn map_case(ctx: &mut Ctx, rng: &mut Rng) {
         p.mul(unsmoothed(&restrict(&t, a), &w, &cfg.order).0)
     };
     let best = assignments(&q).iter().map(|a| value(a)).fold(None, |acc: Option<Dy>, x| Some(match acc { None => x, Some(y) => y.max(x) })).unwrap();
+    if assignments(&q).iter().filter(|a| value(a) == best).count() > 1 {
+        ctx.count("cases_with_tied_optima", 1);
+    }
     let info = json!({"function": t.hex(), "order": cfg.order, "query": q,
         "weights": w.iter().map(|(l, h)| json!([l.show(), h.show()])).collect::<Vec<_>>(), "optimum": best.show()});
     let qlbl: Vec<VarLabel> = q.iter().map(|v| VarLabel::new(*v as u64)).collect();
@@ -169,9 +182,20 @@ fn meu_case(ctx: &mut Ctx, rng: &mut Rng) {
     let last_dec = dec.iter().map(|v| level(*v) as i64).max().unwrap_or(-1);
     let mut w: Vec<(OEu, OEu)> = Vec::new();
     let mut nutil = 0;
+    let coarse = rng.chance(1, 4);
     for v in 0..n {
         if dec.contains(&v) {
             w.push((OEu::one(), OEu::one()));
+        } else if coarse {
+            // coarse regime: utilities 0/1, probabilities 0, 1/2, 1: exact ties in utility with
+            // different probabilities, zero-probability branches
+            if (level(v) as i64) > last_dec && rng.chance(1, 2) {
+                nutil += 1;
+                w.push((OEu(Dy::int(1), Dy::int(rng.below(2) as i128)), OEu(Dy::int(1), Dy::int(rng.below(2) as i128))));
+            } else {
+                let h = rng.below(3) as i128;
+                w.push((OEu(Dy::new(2 - h, 1), Dy::int(0)), OEu(Dy::new(h, 1), Dy::int(0))));
+            }
         } else if (level(v) as i64) > last_dec && rng.chance(1, 2) {
             nutil += 1;
             let u = |rng: &mut Rng| Dy::new(rng.below(13) as i128, 1);
@@ -199,6 +223,13 @@ fn meu_case(ctx: &mut Ctx, rng: &mut Rng) {
     let value = |a: &[(usize, bool)]| -> OEu { unsmoothed(&restrict(&t, a), &w, &cfg.order) };
     let vals: Vec<OEu> = assignments(&dec).iter().map(|a| value(a)).collect();
     let best_eu = vals.iter().map(|x| x.1).fold(None, |acc: Option<Dy>, x| Some(match acc { None => x, Some(y) => y.max(x) })).unwrap();
+    let tied: Vec<&OEu> = vals.iter().filter(|x| x.1 == best_eu).collect();
+    if tied.len() > 1 {
+        ctx.count("cases_with_tied_optima", 1);
+        if tied.iter().any(|x| x.0 != tied[0].0) {
+            ctx.count("cases_with_tied_utility_and_different_probability", 1);
+        }
+    }
     let info = json!({"function": t.hex(), "order": cfg.order, "decisions": dec, "utility_vars": nutil,
         "weights": w.iter().map(|(l, h)| json!([l.show(), h.show()])).collect::<Vec<_>>(), "optimum_eu": best_eu.show()});
     let dlbl: Vec<VarLabel> = dec.iter().map(|v| VarLabel::new(*v as u64)).collect();
